@@ -15,7 +15,7 @@ EXTRA = {'C04-A': ['C18', 'C12'], 'C05-B': ['C11'], 'C10-A': ['C11'], 'C12-A': [
          'C13-A': ['C14'], 'C12-C': ['C06', 'C18'], 'C04-D': ['C18'], 'C07-C': ['C01'],
          'C09-D': ['C04'], 'C05-H': ['C09', 'C04'], 'C01-H': ['C08'], 'C08-H': ['C01'],
          'C05-K': ['C12'], 'C12-K': ['C04', 'C06'], 'C12-L': ['C04'], 'C10-L': ['C03'], 'C03-L': ['C10'],
-         'C18-L': ['C04'], 'C17-L': ['C09']}
+         'C18-L': ['C04'], 'C17-L': ['C09'], 'C04-N': ['C12'], 'C12-M': ['C04'], 'C02-N': ['C05']}
 
 
 def write_table(sd):
